@@ -158,7 +158,10 @@ class StmtMixin:
         if isinstance(tgt, ast.Name):
             s = st.fork()
             want = self.c.get("locals", {}).get(tgt.id)
-            if want is not None and v.ty != want:
+            if want is not None and is_ref(want) and v.ty in ("pydict", "pyset", "pylist") and want[1] in models.CLASSES \
+                    and (v.ty != "pylist" or want[1].startswith("list_")):
+                v = self.box(s, v, want)       # a container display bound to a variable declared as a heap container
+            elif want is not None and v.ty != want:
                 self.cast_guard(st, v, want, getattr(node, "lineno", None))
                 v = self.coerce(v, want) if not (v.ty == "pylist" and not v.py and isinstance(want, tuple) and want[0] == "seq") \
                     else Val(z3.Empty(sort_of(want)), want)
@@ -205,8 +208,19 @@ class StmtMixin:
                 xk = bound_var("xk", kt.sort())
                 if not self.c.get("dict_membership_only"):
                     s.conds.append(newkeys == z3.If(z3.Contains(ks.t, z3.Unit(kt)), ks.t, z3.Concat(ks.t, z3.Unit(kt))))
-                # (consequence, stated so that membership reasoning does not depend on the sequence solver)
+                # (consequences, stated so that membership / index reasoning does not depend on the sequence solver)
                 s.conds.append(z3.ForAll([xk], z3.Contains(newkeys, z3.Unit(xk)) == z3.Or(z3.Contains(ks.t, z3.Unit(xk)), xk == kt)))
+                if not self.c.get("dict_membership_only"):
+                    present = z3.Contains(ks.t, z3.Unit(kt))
+                    n0 = z3.Length(ks.t)
+                    jj = bound_var("kj", I)
+                    w = fresh_const("kw", I)
+                    s.conds.append(z3.Length(newkeys) == z3.If(present, n0, n0 + 1))
+                    s.conds.append(z3.ForAll([jj], z3.Implies(z3.And(jj >= 0, jj < n0), newkeys[jj] == ks.t[jj]), patterns=[newkeys[jj]]))
+                    s.conds.append(z3.Implies(z3.Not(present), newkeys[n0] == kt))
+                    # present <=> some position holds the key
+                    s.conds.append(z3.Implies(present, z3.And(w >= 0, w < n0, ks.t[w] == kt)))
+                    s.conds.append(z3.ForAll([jj], z3.Implies(z3.And(jj >= 0, jj < n0, ks.t[jj] == kt), present)))
                 self.write_field(s, base, cls, "keys", Val(newkeys, ks.ty), node.lineno)
                 self.write_field(s, base, cls, "map", Val(z3.Store(mp.t, kt, self.coerce(v, mp.ty[2]).t), mp.ty), node.lineno)
                 yield s, ("normal",)
@@ -372,6 +386,23 @@ class StmtMixin:
                 a, b = (z3.IntVal(0), vals[0].t) if len(vals) == 1 else (vals[0].t, vals[1].t)
                 cnt = z3.If(b <= a, z3.IntVal(0), (b - a + (step - 1)) / step)
                 yield from self.for_symbolic(n, st1, None, virtual=(cnt, lambda p, a=a: Val(a + p * step, "int")))
+            return
+        if isinstance(n.iter, ast.Call) and isinstance(n.iter.func, ast.Name) and n.iter.func.id == "zip" and len(n.iter.args) == 2 \
+                and not n.iter.keywords and isinstance(n.target, ast.Tuple) and len(n.target.elts) == 2:
+            # for a, b in zip(x, y): min(len(x), len(y)) iterations over the two sequences (a dictionary is iterated by its keys)
+            for st1, vals in self.ev_list(list(n.iter.args), st):
+                if isinstance(vals, Raise):
+                    yield st1, ("raise", vals)
+                    continue
+
+                def as_seq(v):
+                    if is_ref(v.ty) and v.ty[1].startswith("dict_"):
+                        return self.read_field(st1, v, v.ty[1], "keys")
+                    return self.seq_of(st1, v)
+                sa, sb = as_seq(vals[0]), as_seq(vals[1])
+                la, lb = z3.Length(sa.t), z3.Length(sb.t)
+                cnt = z3.If(la <= lb, la, lb)
+                yield from self.for_symbolic(n, st1, None, virtual=(cnt, lambda p, sa=sa, sb=sb: Val(None, "tuple", [Val(sa.t[p], sa.ty[1]), Val(sb.t[p], sb.ty[1])])))
             return
         for st1, it in self.ev(n.iter, st):
             if isinstance(it, Raise):
